@@ -234,6 +234,15 @@ def d2(ctx, F):
     stat = [strip_generics(c.callee) for c in cei.calls() if any(x in strip_generics(c.callee) for x in ("OnceLock", "OnceCell", "LazyLock", "LocalKey", "lazy_static"))]
     if all(strip_generics(c.callee).endswith("connect_with") for c in conn_i) and conn_i:
         stat = []          # a shared endpoint is fine when every connection passes its own configuration explicitly
+    # every connection authenticates from scratch: no TLS state outlives the client that produced it. A process-wide session-ticket
+    # store (keyed by server name only) lets a later, differently configured client resume an earlier client's session — neither side
+    # then looks at a certificate
+    shared = sorted(p_ for p_, c_ in F.consts.items() if c_.get("kind") == "static" and p_.startswith(("selium::connection", "selium::crypto", "selium::client")) and
+                    "__CALLSITE" not in p_ and any(x in (c_.get("ty") or "") for x in ("rustls", "quinn", "OnceLock", "OnceCell", "Lazy", "Mutex", "RwLock", "Arc<")))
+    resum = sorted({strip_generics(c.callee) for p_, b_ in F.bodies.items() if b_.crate == "selium" for c in b_.calls()
+                    if any(x in strip_generics(c.callee) for x in ("Resumption", "ClientSessionMemoryCache", "ClientSessionStore", "session_storage"))})
+    ctx.check(not shared and not resum, "C15.D2.config-per-connection", "client:shared-tls-state",
+              "the client keeps no process-wide TLS state and does not customise session resumption (statics: %s; calls: %s)" % (shared or "none", resum or "none"), ce.span)
     ctx.check(not stat, "C15.D2.config-per-connection", "connect:cached-endpoint", "connect_to_endpoint keeps no process-wide endpoint (%s)" % (stat or "none"), ce.span)
     for c in conn:
         name = flow.const_of(c.args[2])
@@ -336,9 +345,9 @@ def d4(ctx, F):
     days_ok = True
     seen_days = []
     for p_, b_ in sorted(F.bodies.items()):
-        if not p_.startswith(P) or "{closure" in p_:
+        if not p_.lstrip("<").startswith(P) or "{closure" in p_:
             continue
-        ib_ = F.inlined(b_, only=(P,), keep=[CB + "valid_for_days"])
+        ib_ = F.inlined(b_, depth=5, only=(P,), keep=[CB + "valid_for_days"])
         for c in ib_.calls():
             if strip_generics(c.callee) == CB + "valid_for_days" and len(c.args) > 1:
                 r = flow.root(ib_, c.args[1])
@@ -351,6 +360,9 @@ def d4(ctx, F):
                             vals.append(flow.const_of(d_[3]["op"]))
                         else:
                             vals.append(None)
+                elif r[0] == "arg" or (r[0] == "rv" and len(r) > 4 and r[1]["k"] == "use" and r[1]["op"].get("k") in ("copy", "move") and
+                                        flow.root(ib_, {"k": "copy", "pl": {"l": r[1]["op"]["pl"]["l"], "p": []}})[0] == "arg"):
+                    vals = []          # handed in by the caller (or inside an enum the caller built): decided where the value is made
                 else:
                     vals = [None]
                 seen_days += vals
@@ -366,8 +378,27 @@ def d4(ctx, F):
         trunc_ok = bool(tr) and all(any(oi.dominates(t.bb, o.bb) for t in tr) for o in opens if strip_generics(o.callee).endswith("::open"))
     ctx.check(trunc_ok and (bool(creates) or bool(opens)), "C15.D4.files-truncated", "gen:file-not-truncated",
               "the generator truncates each output file it writes (File::create or OpenOptions::truncate(true))", out.span)
-    ctx.check(len(wr) == 6 and ca_written == 2, "C15.D4.same-ca", "gen:ca-file",
-              "each of the two output directories receives self.ca (the one shared CA) plus its key pair (%d writes, %d of the CA)" % (len(wr), ca_written), out.span)
+    exact = len(wr) == 6 and ca_written == 2
+    how = "%d writes, %d of the CA" % (len(wr), ca_written)
+    if not exact and wr and flow.loops(oi):
+        # table-driven form: the files / directories are listed in arrays and written in loops. Decided flow-insensitively: the bytes of
+        # self.ca, of both key pairs' certificate and key, and both output paths all reach the one write site
+        names = [f["name"] for f in cg["variants"][0]["fields"]]
+        def reads(field_idx, sub=None):
+            out_ = set()
+            for i, j, pl, rv, s in oi.assigns():
+                p_ = rv["pl"] if rv["k"] == "ref" else (rv["op"]["pl"] if rv["k"] == "use" and rv["op"].get("k") in ("copy", "move") else None)
+                if p_ is not None and (p_["l"] == 1 or flow.root_local(oi, p_["l"]) == 1) and [e for e in p_["p"] if isinstance(e, int)][:1] == [field_idx]:
+                    out_.add(pl["l"])
+            return out_
+        srcs = {"ca": reads(caidx), "client": reads(names.index("client")), "server": reads(names.index("server"))}
+        data_ok = all(v and any(op_local(c.args[1]) in flow.derived(oi, v, calls="all") for c in wr) for v in srcs.values())
+        creates_ = [c for c in oi.calls() if strip_generics(c.callee) in ("std::fs::File::create", "std::fs::OpenOptions::open")]
+        paths_ok = bool(creates_) and all(any(op_local(a) in flow.derived(oi, {k_}, calls="all") for c in creates_ for a in c.args) for k_ in (2, 3))
+        exact = data_ok and paths_ok
+        how = "table-driven: CA / client pair / server pair reach the write site: %s; both output paths reach file creation: %s" % (data_ok, paths_ok)
+    ctx.check(exact, "C15.D4.same-ca", "gen:ca-file",
+              "each of the two output directories receives self.ca (the one shared CA) plus its key pair (%s)" % how, out.span)
 
 
 def d5(ctx):
